@@ -57,7 +57,7 @@ package internal
 //@   assigns HC_internal_ETag
 //@   ensures U1: err == nil <==> unquoteOk(string(b))
 //@   ensures U2: err == nil ==> string(*etag) == unquoteVal(string(b))
-//@   ensures U3: err != nil ==> *etag == old(*etag) && httpCode(err) == -1 && !hostPath(err)
+//@   ensures U3: err != nil ==> *etag == old(*etag) && httpCode(err) == -1 && !hostPath(err) && asPathErr(err) == nil && asLinkErr(err) == nil
 //@   ensures U4: forall r *ETag :: r != etag ==> *r == old(*r)
 //@ func internal.verifETagXMLRoundTrip(s) (r, err)
 //@   ensures RT: err == nil && r == s
